@@ -182,6 +182,8 @@ def run_check(pid, tier, seed):
         if label in expected_oor or base in expected_oor:
             continue
         S.undecided.append({"obligation": label, "why": "function out of reach of the verifier: " + why})
+    import shutil as _sh
+    _sh.rmtree(os.path.join(ROOT, "replays", pid), ignore_errors=True)       # replay files of earlier runs are stale
     os.makedirs(os.path.join(ROOT, "replays", pid), exist_ok=True)
     bviol = list(bres["violations"]) if bres else []
     for v in bviol:
